@@ -25,8 +25,8 @@
 // Output: the usual trace (N / B / I / o / K lines) of both nodes, so that the runner replays both
 // on the Coq model (the model forks in the same way: 0 DIFF expected), then
 //
-//	V C10 validator-set-used-before-it-was-final scenario=window-fork ...
-//	V C01 blocks-differ-under-late-membership-change scenario=window-fork ...
+//	V C10 validator-set-used-before-it-was-final scenario=%s ...
+//	V C01 blocks-differ-under-late-membership-change scenario=%s ...
 //	Z 0 ...statistics
 package main
 
@@ -196,6 +196,10 @@ func main() {
 		enc.Encode(&c)
 		return
 	}
+	scen := c.Scenario
+	if scen == "" {
+		scen = "window-fork"
+	}
 	fmt.Fprintf(out, "H 0\n")
 	genesis := []int{0, 1, 2, 3}
 	type obs struct {
@@ -248,8 +252,8 @@ func main() {
 			old, _ := o.nd.Store.GetPeerSet(o.entryRnd - 1)
 			cur, _ := o.nd.Store.GetPeerSet(o.entryRnd)
 			w.Violation("C10", "validator-set-used-before-it-was-final",
-				fmt.Sprintf("scenario=window-fork node=%d entry-round=%d written-at-event=%d last-round=%d events-already-in-rounds>=%d:%d divided-with=%d final=%d",
-					o.nd.ID, o.entryRnd, o.entryAt, o.lastRnd, o.entryRnd, o.divided, len(old.Peers), len(cur.Peers)))
+				fmt.Sprintf("scenario=%s node=%d entry-round=%d written-at-event=%d last-round=%d events-already-in-rounds>=%d:%d divided-with=%d final=%d",
+					scen, o.nd.ID, o.entryRnd, o.entryAt, o.lastRnd, o.entryRnd, o.divided, len(old.Peers), len(cur.Peers)))
 		}
 	}
 	txs := func(bl *hg.Block) string {
@@ -270,8 +274,8 @@ func main() {
 			forks++
 			if forks == 1 {
 				w.Violation("C01", "blocks-differ-under-late-membership-change",
-					fmt.Sprintf("scenario=window-fork block=%d rr=%d/%d txs-a=%s txs-b=%s frame-a=%X frame-b=%X",
-						i, ba.RoundReceived(), bb.RoundReceived(), txs(ba), txs(bb), ba.FrameHash()[:6], bb.FrameHash()[:6]))
+					fmt.Sprintf("scenario=%s block=%d rr=%d/%d txs-a=%s txs-b=%s frame-a=%X frame-b=%X",
+						scen, i, ba.RoundReceived(), bb.RoundReceived(), txs(ba), txs(bb), ba.FrameHash()[:6], bb.FrameHash()[:6]))
 			}
 		}
 	}
